@@ -33,3 +33,6 @@ let run_syntax ic =
   iter_lines ic (fun line ->
     let s = bytes_of_hex line in
     print_string (show_lex s); print_string " ## "; print_endline (show_parse s))
+
+(* thorough tier: the serialised result of everything the syntax models compute, to be compared with vm_compute inside Coq *)
+let run_ser ic = iter_lines ic (fun line -> print_endline (hex (ser_result (bytes_of_hex line))))
